@@ -106,6 +106,24 @@ static int run_tri(Rng& rng) {
                         same = same && std::memcmp(y.data(), x.data(), sizeof(double) * n) == 0;
                     }
                     std::printf("PROP tri-repeated-solve n=%d cyc=%d k=%d => %s\n", n, cyc, k, same ? "ok" : "FAIL results differ between successive solves");
+                    // extreme but legal scalings: A and b multiplied by the same power of two give the same x bit for bit (every operation of the
+                    // factorisation and the sweeps scales exactly) as long as nothing over- or underflows; the entries, right-hand sides and solutions
+                    // stay normal doubles (huge scalings only: the solver's own debug assertion !equals(d, 0.0) is absolute and rejects tiny matrices)
+                    if (flavour == 0 && rep < 3) {
+                        for (int e : {300, 520, 600}) {
+                            TriSys q = s;
+                            for (auto& v : q.main) v = std::ldexp(v, e);
+                            for (auto& v : q.sub) v = std::ldexp(v, e);
+                            q.corner = std::ldexp(q.corner, e);
+                            Tri tq(n); fill(tq, q);
+                            std::vector<double> y(n);
+                            for (int i = 0; i < n; i++) y[i] = std::ldexp(s.b[i], e);
+                            tq.solveInPlace(y.data(), t1.data(), t2.data());
+                            bool same_x = std::memcmp(y.data(), x.data(), sizeof(double) * n) == 0;
+                            std::printf("PROP tri-scaling-invariance n=%d cyc=%d exponent=%d => %s\n", n, cyc, e,
+                                        same_x ? "ok" : "FAIL the solution of (2^e A) x = 2^e b differs from the solution of A x = b (overflow / scale dependence)");
+                        }
+                    }
                 }
     // diagonal solver
     for (int rep = 0; rep < 20; rep++) {
